@@ -175,7 +175,11 @@ func forEachCase(c *core.Ctx, gen string, f func(cas int, src source, fresh func
 			continue
 		}
 		began := time.Now()
-		for n := 0; n < cases(c, gen); n++ {
+		ncases := cases(c, gen)
+		if gen == "lin" && c.Args["cases"] == "" && src.New(c.Rng("pool", si*caseStride), 0)().Herd {
+			ncases *= herdMult
+		}
+		for n := 0; n < ncases; n++ {
 			if budget > 0 && c.OnlyCase < 0 && time.Since(began) > time.Duration(budget)*time.Millisecond {
 				break
 			}
@@ -236,11 +240,15 @@ func runSelf(c *core.Ctx, t *core.Trace) {
 	prog := &program{Prefix: []pop{{Name: "Put", K: 1, V: 1}, {Name: "Put", K: 1, V: 2}, {Name: "Size", K: 1, V: 0}, {Name: "Get", K: 1, V: 0}, {Name: "Put", K: 2, V: 3}},
 		Threads: [][]pop{{{Name: "Size", K: 1, V: 0}, {Name: "Get", K: 2, V: 0}}, {{Name: "ContainsKey", K: 1, V: 0}, {Name: "IsEmpty", K: 1, V: 0}}}}
 	t.Reset(gen, 0, resetHdr(co, prog))
-	log, _, _ := runProgram(co, prog, true, c.Rng("yield", 0))
+	log, _, finished := runProgram(co, prog, true, c.Rng("yield", 0))
 	for _, e := range log {
 		t.Emit(e)
 	}
-	fin := co.Final()
+	var fin core.Ev
+	if msg, back := bounded(func() { fin = co.Final() }); !finished || !back || msg != "" {
+		t.Emit(core.Ev{"ev": "Timeout", "after": watchdog.String(), "o": "Final", "msg": msg})
+		return
+	}
 	fin["ev"] = "Final"
 	t.Emit(fin)
 	c.Count("self", true)
@@ -316,7 +324,11 @@ func runLin(c *core.Ctx) error {
 				break
 			} else if len(open) == 0 {
 				var fin core.Ev
-				if msg := core.Guard(func() { fin = co.Final() }); msg != "" {
+				if msg, back := bounded(func() { fin = co.Final() }); !back { // the lock stayed taken after the last call
+					hung[cas/caseStride]++
+					t.Emit(core.Ev{"ev": "Timeout", "after": watchdog.String(), "o": "Final"})
+					break
+				} else if msg != "" {
 					t.Emit(core.Ev{"ev": "Panic", "p": 0, "o": "Final", "msg": msg})
 				} else {
 					fin["ev"] = "Final"
@@ -376,8 +388,13 @@ func runForced(c *core.Ctx, t *core.Trace) {
 		}
 		if !finished {
 			t.Emit(core.Ev{"ev": "Timeout", "after": historyWatchdog.String()})
+			break
 		} else {
-			fin := co.Final()
+			var fin core.Ev
+			if msg, back := bounded(func() { fin = co.Final() }); !back || msg != "" {
+				t.Emit(core.Ev{"ev": "Timeout", "after": watchdog.String(), "o": "Final", "msg": msg})
+				break
+			}
 			fin["ev"] = "Final"
 			t.Emit(fin)
 		}
